@@ -130,7 +130,7 @@ class Lexer:
             # Hex escapes
             peek2 = self.peek_char(2)
             peek3 = self.peek_char(3)
-            if peek2 in self.HEX_DIGITS and peek3 in self.HEX_DIGITS:
+            if peek2 and peek3 and peek2 in self.HEX_DIGITS and peek3 in self.HEX_DIGITS:
                 ordv = int(peek2 + peek3, base=16)
                 return (chr(ordv), 3)
             else:
